@@ -189,6 +189,7 @@ type RDBOpts struct {
 	MinVersion  int
 	NoIdleFreq  bool
 	FloatOpcode bool // allow the module-aux FLOAT sub-opcode
+	NoInfScore  bool // replace infinite scores by finite ones
 }
 
 // RDB draws a whole RDB file.
@@ -256,6 +257,13 @@ func RDB(t *tape.Tape, o RDBOpts) (file []byte, recs []rc.Record, version int, i
 		}
 		used[fmt.Sprintf("%d/%s", di, name)] = true
 		val := ValueOf(t, kind, o.MaxElem)
+		if o.NoInfScore {
+			for i := range val.ZSet {
+				if math.IsInf(val.ZSet[i].S, 0) {
+					val.ZSet[i].S = float64(i) + 0.5
+				}
+			}
+		}
 		legal := rc.LegalTypes(val, version)
 		it := rc.Item{Kind: "key", Key: name, Val: val, Type: legal[t.Choose(len(legal))]}
 		if !o.NoExpiry && t.Choose(3) == 2 {
